@@ -71,6 +71,38 @@ class Heap:
         for c in model.classes.values():
             for n in c.methods:
                 self.method_owners.setdefault(n, []).append(c.name)
+        # containers that live at module or class level and are filled at run time (caches, registries): what they hold outlives every call
+        def is_container(v):
+            return isinstance(v, (ast.Dict, ast.List, ast.Set)) or (isinstance(v, ast.Call) and isinstance(v.func, ast.Name) and
+                                                                       v.func.id in ('dict', 'list', 'set', 'OrderedDict', 'defaultdict'))
+        written = set()
+        for mod in model.mods.values():
+            for n in ast.walk(mod.tree):
+                tgt = None
+                if isinstance(n, ast.Subscript) and isinstance(n.ctx, (ast.Store, ast.Del)):
+                    tgt = n.value
+                elif isinstance(n, ast.Call) and isinstance(n.func, ast.Attribute) and n.func.attr in ('append', 'extend', 'update', 'setdefault', 'add', 'insert'):
+                    tgt = n.func.value
+                if isinstance(tgt, ast.Name):
+                    written.add(tgt.id)
+                elif isinstance(tgt, ast.Attribute) and isinstance(tgt.value, ast.Name):
+                    written.add(tgt.attr)
+        self.stores = {}         # name (module level) or attribute (class level) -> kind
+        for mod in model.mods.values():
+            for st in mod.tree.body:
+                tgt, val = (st.targets[0], st.value) if isinstance(st, ast.Assign) and len(st.targets) == 1 else \
+                    (st.target, st.value) if isinstance(st, ast.AnnAssign) else (None, None)
+                if isinstance(tgt, ast.Name) and val is not None and is_container(val) and tgt.id in written:
+                    in_funcs = any(isinstance(x, ast.Name) and x.id == tgt.id for fd in ast.walk(mod.tree) if isinstance(fd, ast.FunctionDef) for x in ast.walk(fd))
+                    if in_funcs:
+                        self.stores[tgt.id] = 'dict:?' if isinstance(val, ast.Dict) or (isinstance(val, ast.Call) and 'dict' in val.func.id.lower()) else 'list:?'
+                if isinstance(st, ast.ClassDef):
+                    for x in st.body:
+                        tgt, val = (x.targets[0], x.value) if isinstance(x, ast.Assign) and len(x.targets) == 1 else \
+                            (x.target, x.value) if isinstance(x, ast.AnnAssign) else (None, None)
+                        if isinstance(tgt, ast.Name) and val is not None and is_container(val) and tgt.id in written:
+                            self.stores[st.name + '.' + tgt.id] = 'dict:?' if isinstance(val, ast.Dict) or (
+                                isinstance(val, ast.Call) and 'dict' in val.func.id.lower()) else 'list:?'
 
     # -- kinds ---------------------------------------------------------------------------------------------------
     def kind_of(self, ref, ctx):
@@ -89,6 +121,8 @@ class Heap:
             k = ctx.arg_kind(root[4:])
         elif root.startswith('Glob:'):
             k = 'dict:' + root[5:]        # an Enum class: a mapping name -> member object
+        elif root.startswith('Store:'):
+            k = self.stores.get(root[6:], 'dict:?')
         else:
             k = '?'
         for fld in path:
@@ -307,7 +341,14 @@ class FnAnalysis:
                 return {('Glob:' + e.id, ())}
             if e.id == '__class__' or e.id in self.m.classes:
                 return {IMM}
+            if e.id in self.H.stores:
+                return {('Store:' + e.id, ())}        # a module-level container filled at run time
             return {IMM} if e.id in ('None', 'True', 'False') else set()
+        if isinstance(e, ast.Attribute) and isinstance(e.value, ast.Name) and e.value.id not in self.env and \
+                (e.value.id == '__class__' or e.value.id in self.m.classes or e.value.id in ('self', 'cls')):
+            cn_ = (self.func.cls if e.value.id in ('__class__', 'self', 'cls') else e.value.id) or ''
+            if cn_ + '.' + e.attr in self.H.stores:
+                return {('Store:' + cn_ + '.' + e.attr, ())}
         if isinstance(e, ast.Attribute):
             base = self.ev(e.value)
             if base and all(b[0].startswith('Glob:') and not b[1] for b in base) and e.attr not in ('value', 'name'):
